@@ -8,6 +8,7 @@ import (
 	"io"
 	"strings"
 	"time"
+	"verif/sim/simhttp"
 
 	connect "github.com/bufbuild/connect-go"
 
@@ -166,7 +167,12 @@ func genC15(t *core.Tape, tier string) *Scenario {
 			}
 			p.HProg = prog
 		}
-		switch t.Pick([]int{4, 2, 2}, "h.end") {
+		switch t.Pick([]int{4, 2, 2, 1}, "h.end") {
+		case 3:
+			// a handler that stops when its context ends and returns nil: its
+			// clean end of the response is a reaction to the cancellation
+			p.HProg = append(p.HProg, HOp{Op: "waitctx"})
+			sc.Notes["handler_returns_nil_on_cancel"]++
 		case 1:
 			p.HProg = append(p.HProg, HOp{Op: "waitctx"})
 			p.HErr = &ErrPlan{CtxErr: true}
@@ -186,6 +192,38 @@ func genC15(t *core.Tape, tier string) *Scenario {
 	}
 	boundSteps(p)
 	genYield(t, p)
+	if p.Kind == KServer && (mode == 0 || mode == 2) && sc.Clients[0].ReadMax == 0 && t.Bool(1, 4, "late.close.focus") {
+		// HTTP/1.1 over TLS, a receiver blocked on a quiet stream, a handler
+		// that stops when its context ends: the server's reaction to the
+		// cancellation (its own classification of it, or a clean end) can reach
+		// the blocked read before the client's socket is closed
+		p.K.HTTP2, p.K.Lazy, p.K.PostAccept = false, false, 0
+		p.K.H1LateClose, p.K.H1LateCloseSlow = true, t.Bool(1, 2, "late.close.slow")
+		if t.Bool(1, 2, "late.close.transit") {
+			p.K.ArriveLag = 30 * time.Microsecond
+		}
+		p.CProg = []COp{{Op: "recvall"}, {Op: "closeresp"}}
+		p.HProg = []HOp{{Op: "recv"}}
+		for i := range p.RespMsgs {
+			p.HProg = append(p.HProg, HOp{Op: "send", Arg: i})
+		}
+		p.HProg = append(p.HProg, HOp{Op: "waitctx"})
+		p.HErr = nil
+		if t.Bool(1, 2, "late.close.returns.ctxerr") {
+			p.HErr = &ErrPlan{CtxErr: true}
+		}
+		if mode == 2 && p.Deadline < 200*time.Microsecond {
+			p.Deadline = 200 * time.Microsecond
+		}
+		sc.Notes["late_close_focus"]++
+	}
+	if p.K.H1LateClose && !p.K.HTTP2 && t.Bool(1, 2, "watcher.slow") {
+		// the library's own context watcher is slow to wake: what the server
+		// sends in reaction to the cancellation can then reach a blocked read
+		i := simhttp.PointIndex("watch.woken")
+		p.YieldOn[i], p.SlowOn[i] = true, true
+		sc.Notes["library_watcher_slow"]++
+	}
 	sc.Calls = []*CallPlan{p}
 	return sc
 }
@@ -304,6 +342,15 @@ func checkC15(w *World, st core.Status, r *RunResult) []Violation {
 					continue
 				}
 				if inflight && errors.Is(op.Err, io.EOF) && op.Op == "recv" && o.H.Returned {
+					// a clean end: fine if the transport handed it over before the
+					// instant. Afterwards the library knows, when its read returns,
+					// that the context has ended - whatever the server sent in
+					// reaction to the cancellation is not the call's outcome.
+					if ex := o.Call.Exchange(); ex != nil && w.real == nil {
+						if step, at, ok := ex.Down.EndSeen(); ok && after(step, at) {
+							add("clean-end-after-instant/in-flight", fmt.Sprintf("a Receive blocked since before the %v instant returned a clean end of stream that the transport delivered after it", want))
+						}
+					}
 					continue
 				}
 				if inflight && !codeOK(op.Err) && strings.Contains(op.Err.Error(), "cannot be marshalled") {
